@@ -130,6 +130,15 @@ def combine (comb : String) (name : Bytes) (u : Bool) : Bool :=
     | _ => u
   | _ => u
 
+/-- the literals of a `.unit` value list / OR chain: `pat` split at newlines -/
+def splitLits (pat : Bytes) : List Bytes :=
+  let (acc, cur) := pat.foldl (fun (st : List Bytes × Bytes) c =>
+    if c == 10 then (st.1 ++ [st.2], []) else (st.1, st.2 ++ [c])) (([] : List Bytes), ([] : Bytes))
+  acc ++ [cur]
+
+def isListKind (fk : String) : Bool := fk == "list" || fk == "chain"
+def isNListKind (fk : String) : Bool := fk == "nlist" || fk == "nchain"
+
 /-- a result line of a history: name and measurements as written -/
 structure HLine where
   name : Bytes
@@ -172,6 +181,8 @@ def handleHist (l : Line) : IO Unit := do
     combine comb ln.name <|
     if isRe then unitMatch litMatch v
     else if isNre then !unitMatch litMatch v
+    else if isListKind fk then unitMatch (fun x => (splitLits pat).any (· == x)) v
+    else if isNListKind fk then !unitMatch (fun x => (splitLits pat).any (· == x)) v
     else match fk with
     | "u" => unitMatch (· == pat) v
     | "nu" => !unitMatch (· == pat) v
@@ -199,8 +210,10 @@ def handleHist (l : Line) : IO Unit := do
   let skept := "|".intercalate (files.map fun f => joinNE (f.map fun ln =>
     String.ofList (ln.ms.map fun (_, u) =>
       let hit := if isRe || isNre then litMatch u || litMatch (Spec.Tidy.tidyUnit u).1
+                 else if isListKind fk || isNListKind fk then
+                   (splitLits pat).any fun p => p == u || p == (Spec.Tidy.tidyUnit u).1
                  else pat == u || pat == (Spec.Tidy.tidyUnit u).1
-      let k := combine comb ln.name <| if isRe then hit else if isNre then !hit else match fk with
+      let k := combine comb ln.name <| if isRe || isListKind fk then hit else if isNre || isNListKind fk then !hit else match fk with
         | "u" => hit
         | "nu" => !hit
         | "name" => ln.name == sName
@@ -231,6 +244,8 @@ def handleKeep (l : Line) : IO Unit := do
     combine comb ln.name <|
     if isRe then unitMatch litMatch v
     else if isNre then !unitMatch litMatch v
+    else if isListKind fk then unitMatch (fun x => (splitLits pat).any (· == x)) v
+    else if isNListKind fk then !unitMatch (fun x => (splitLits pat).any (· == x)) v
     else match fk with
     | "u" => unitMatch (· == pat) v
     | "nu" => !unitMatch (· == pat) v
@@ -238,8 +253,10 @@ def handleKeep (l : Line) : IO Unit := do
     | _ => true
   let keepSpec (ln : HLine) (u : Bytes) : Bool :=
     let hit := if isRe || isNre then litMatch u || litMatch (Spec.Tidy.tidyUnit u).1
+               else if isListKind fk || isNListKind fk then
+                 (splitLits pat).any fun p => p == u || p == (Spec.Tidy.tidyUnit u).1
                else pat == u || pat == (Spec.Tidy.tidyUnit u).1
-    combine comb ln.name <| if isRe then hit else if isNre then !hit else match fk with
+    combine comb ln.name <| if isRe || isListKind fk then hit else if isNre || isNListKind fk then !hit else match fk with
       | "u" => hit
       | "nu" => !hit
       | "name" => ln.name == sName
